@@ -41,11 +41,12 @@ pub(crate) fn literal(p: &mut Parser<'_>) -> Option<CompletedMarker> {
         // We don't have access to the text of the identifier here, so we can't distinguish
         // timing literals from imaginary literals. We tag everything TIMING_LITERAL
         // Later in semantic analysis we separate imaginary literals from timing literals.
-        let m2 = p.start(); // TIMING_LITERAL
+        // `m` is the enclosing TIMING_LITERAL node, `m2` the LITERAL node inside it.
+        let m2 = p.start(); // LITERAL
         p.bump_any(); // The numeric literal
-        m.complete(p, LITERAL);
+        m2.complete(p, LITERAL);
         identifier(p); // The time unit suffix, or quasi-suffix.
-        return Some(m2.complete(p, TIMING_LITERAL));
+        return Some(m.complete(p, TIMING_LITERAL));
     }
     p.bump_any();
     Some(m.complete(p, LITERAL))
